@@ -324,7 +324,7 @@ def render_fn(fn, recipe, log):
     for pat, why in recipe.get("drop_all", []):
         mm = list(re.finditer(pat, body))
         if not mm:
-            raise ExtractError(f"drop_all pattern {pat!r} matched nothing")
+            continue    # nothing of this kind to drop in the current text: the body is taken as it is
         log["dropped_text"].append(f"{mm[0].group(0).strip()}  ({len(mm)}x; {why})")
         body = re.sub(pat, "", body)
     if recipe.get("drop_macros"):
@@ -337,9 +337,12 @@ def render_fn(fn, recipe, log):
     for c in recipe.get("closures", []):
         body = annotate_closure(body, c, log)
     # rewrites
-    for pat, repl, why in recipe.get("rewrite", []):
+    for rw in recipe.get("rewrite", []):
+        pat, repl, why = rw[0], rw[1], rw[2]
         new, k = re.subn(pat, repl, body)
         if k == 0:
+            if len(rw) > 3 and rw[3] == "optional":
+                continue    # a rewrite that applies wherever the construct occurs; its absence changes nothing
             raise ExtractError(f"rewrite pattern {pat!r} did not match")
         log["rewrites"].append(f"{pat} -> {repl} ({why}; {k}x)")
         body = new
